@@ -78,9 +78,11 @@ Definition dtype (d : dict) : option bytes :=
 Definition is_page (d : dict) : bool :=
   match dtype d with Some s => beqb s kPage | None => false end.
 
-(* the xref table *)
-Definition graph := list (N * (bool * obj)).
-Fixpoint lookup (g : graph) (n : N) : option (bool * obj) :=
+(* the xref table: in-use entries.  FValid / FInvalid: XRefTableEntry.Valid (set by validation);
+   FLazy: entry.Object is still an undecoded types.LazyObjectStreamObject (obj = what it decodes to) *)
+Inductive eflag := FValid | FInvalid | FLazy.
+Definition graph := list (N * (eflag * obj)).
+Fixpoint lookup (g : graph) (n : N) : option (eflag * obj) :=
   match g with
   | [] => None
   | (m, e) :: r => if N.eqb m n then Some e else lookup r n
@@ -89,7 +91,7 @@ Fixpoint lookup (g : graph) (n : N) : option (bool * obj) :=
 (* How a record was written (ghost information for the proofs; the real writer does not
    record it): generically by writeIndirectObject with the flags ctx.WritingPages / ctx.Dest
    as they were when the object was reached, as the catalog, as a page tree node, as a page. *)
-Inductive mode := MGen (wp dest : bool) | MRoot | MPages | MPage.
+Inductive mode := MGen (wp dest : bool) | MRoot | MPages | MPage | MLazy.
 
 (* emitted records, most recent first: ctx.Write.Table (which numbers have a write offset)
    together with what was printed for the number *)
@@ -152,7 +154,9 @@ Section Graph.
      - already has a write offset: nothing;
      - missing / free entry or a nil object: "null" is written under the number;
      - a page dict whose entry is not marked Valid: nothing is written (writeDeepDict);
-     - entry.Object is itself an IndirectRef: error. *)
+     - entry.Object is itself an IndirectRef: error;
+     - an undecoded object stream member: its bytes are copied, nothing it references is
+       followed (writeLazyObjectStreamObject). *)
   Fixpoint visit (fuel : nat) (wp dest : bool) (n : N) (s : st) : wres :=
     if written s n then WOk s else
     match fuel with
@@ -160,11 +164,12 @@ Section Graph.
     | S f =>
       match lookup g n with
       | None => WOk ((n, (MGen wp dest, ONull)) :: s)
-      | Some (valid, o) =>
+      | Some (FLazy, o) => WOk ((n, (MLazy, o)) :: s)
+      | Some (fl, o) =>
         match o with
         | ORef _ => WFail
         | ODict d =>
-            if is_page d && negb valid then WOk s
+            if is_page d && match fl with FValid => false | _ => true end then WOk s
             else deep_values (visit f) wp dest o ((n, (MGen wp dest, o)) :: s)
         | _ => deep_values (visit f) wp dest o ((n, (MGen wp dest, o)) :: s)
         end
@@ -273,12 +278,16 @@ Section Graph.
     | _ => WFail
     end.
 
+  (* writeDocumentInfoDict: DereferenceDict (which decodes a lazy entry), then writeDeepObject *)
   Definition write_info (fuel : nat) (info : option N) (s : st) : wres :=
     match info with
     | None => WOk s
     | Some i =>
       match lookup g i with
-      | Some (_, ODict _) => visit fuel false false i s
+      | Some (fl, ODict d) =>
+          if written s i then WOk s
+          else if is_page d && match fl with FValid => false | _ => true end then WOk s
+          else deep_values (visit fuel) false false (ODict d) ((i, (MGen false false, ODict d)) :: s)
       | Some (_, ONull) | None => WOk s          (* DereferenceDict gives nil: return *)
       | _ => WFail
       end
@@ -341,7 +350,7 @@ Definition followed (r : mode * obj) : list N :=
   | (MRoot, ODict d) => wrefs_entries false d root_keys_pre ++ pages_ref d ++ wrefs_entries false d root_keys_post
   | (MPages, ODict d) => kids_refs d ++ wrefs_entries false d pages_keys
   | (MPage, ODict d) => wrefs_entries true d page_keys
-  | _ => []
+  | _ => []                                   (* MLazy: nothing *)
   end.
 
 Definition memN (n : N) (l : list N) : bool := existsb (N.eqb n) l.
